@@ -289,6 +289,33 @@ func buildPlan(id string, pinned map[string]string, tier string) *Plan {
 			"InterpolateOnRange, MultiLin.Evaluate / Eq / FoldParallel, pools: not under contract"}
 		p.Note = "Dense polynomials: Eval is Horner's value of sum p[j] X^j (recursive specification); Add, Sub, Scale, ScaleInPlace, Add/SubConstantInPlace, Set, Clone, Equal, SetZero, MultiLin.Fold / Add / Sum / Clone and EvalEq act coefficient-wise as their definitions say, with the result length prescribed, for all same-start aliasings of their operands (identical slices, and prefixes of one another). IOP polynomials: evaluate returns the stored evaluation at every point of the domain in Lagrange form (Regular layout); Evaluate passes exactly base * w^shift to the evaluation of the shared coefficient vector, for every integer shift, with w the generator of order Size and base = x (or x / coset in LagrangeCoset form); Clone / ShallowClone / NewPolynomial / Shift preserve every field of the object (shift, size, coset, form, coefficients); GetCoeff reads entry (i + (n/size) * shift) mod n in the Regular layout."
 		return p
+	case "C18":
+		// Partial: the frame and ownership obligations of the entry points that are under contract for other
+		// properties. The same functions are analysed; only these obligations belong to C18.
+		p := &Plan{ID: id}
+		for _, src := range []string{"C05", "C07", "C10", "C11", "C13", "C14", "C15", "C16", "C17", "C20"} {
+			if q := buildPlan(src, pinned, tier); q != nil {
+				p.Units = append(p.Units, q.Units...)
+			}
+		}
+		p.Keep = func(o *Obligation) bool {
+			if o.Kind == "frame" {
+				return true
+			}
+			for _, n := range []string{"#post:fresh", "#post:input", "#post:noescape", "#post:ownership", "#post:unchanged"} {
+				if strings.Contains(o.Name, n) {
+					return true
+				}
+			}
+			return false
+		}
+		p.Trusted = []string{"frame discipline of the VC generator: every store to, and every callee frame (modifies clause of an applied contract) over, an object reachable from the arguments is compared with the modifies clause of the function under contract; a write outside it is a failed obligation",
+			"escape analysis of the VC generator for fresh() / noescape clauses"}
+		p.Assumptions = []string{"opaque callees (hashes, pairings, multi-exponentiations, interface methods) are ASSUMED not to write through their arguments: their own frames are not checked here"}
+		p.NotCovered = []string{"**most of the property's statement**: repeatability across calls that share pooled or lazily initialised global state, absence of data races, independence of GOMAXPROCS and task counts (goroutine schedules are outside the subset)",
+			"entry points that are not under contract for another property (multi-exponentiation, Miller loop, FFT drivers, Domain construction, SIS, streaming encoders / decoders)"}
+		p.Note = "Partial. For the exported entry points under contract (KZG Commit / Open / Verify / fold / batch verification, dense and IOP polynomial operations, FFT kernels, Fiat-Shamir transcript, decoders, Merkle / Pedersen / permutation / lookup / Vortex verifiers, MiMC and Poseidon2 pieces, hash-to-field, pairing entry points): no argument other than the documented destination is written (every store and every callee frame lies within the function's modifies clause), results declared fresh are backed by memory allocated during the call, and inputs declared unchanged are unchanged."
+		return p
 	case "C19":
 		p := &Plan{ID: id}
 		for _, pk := range fps {
